@@ -435,11 +435,6 @@ class Tdf:
         except StopIteration:
             raise ValueError(f"No block of type {type} found")
 
-        # calculate new offset for the next unused slot
-        newOffset = (
-            self.entries[-1].offset if oldEntryPos != 0 else (64 + 288 * self.nEntries)
-        )
-
         # delete entry
         self.entries.remove(oldEntry)
         self.handler.seek(64 + 288 * oldEntryPos, 0)
@@ -447,6 +442,12 @@ class Tdf:
         for entry in self.entries[oldEntryPos:]:
             entry.offset -= oldEntry.size
             entry._write(self.handler)
+
+        # the new unused slot points at the end of the data that remains
+        # (computed after the later entries have been shifted down)
+        newOffset = max(
+            [64 + 288 * self.nEntries] + [e.offset + e.size for e in self.entries]
+        )
 
         # add new unused slot at the end
         date = datetime.now()
